@@ -20,6 +20,10 @@ def obligations(tier):
         ch("decode_row", "harness.C15_scc", timeout=T, functions=("SCCReader.read", "_translate_line", "_translate_word", "InstructionNodeCreator.add_chars"),
            exhaustive=True, bounds="one row of 28..38 characters decoded by the real reader in pop-on, roll-up and paint-on mode"),
     ]
+    obs.append(ch("scan2_split", "harness.C15_scc", timeout=T, functions=F, exhaustive=True,
+                  bounds="2 captions x shared start or not x length in {31,32,33,40} x the line is one text node or two text nodes around an italics span"))
+    obs.append(ch("decode_row_midrow", "harness.C15_scc", timeout=T, functions=("SCCReader.read", "InstructionNodeCreator.interpret_command", "_format_italics"), exhaustive=True,
+                  bounds="one row of 12-18 + 12-18 characters with a mid-row italics code in between, decoded in all three modes"))
     if not q:
         obs.append(ch("scan4", "harness.C15_scc", timeout=T, functions=F, exhaustive=True, bounds="4 captions, lengths in {31,32,33}, start shared or not"))
         obs.append(ch("scan2_two_lines", "harness.C15_scc", timeout=T, functions=F, exhaustive=True, bounds="2 captions of two lines, lengths in {1,31,32,33,40}"))
